@@ -493,6 +493,27 @@ func ExtendVoucher[T protocol.PublicKeyOrChain](v *Voucher, owner crypto.Signer,
 		return nil, fmt.Errorf("owner key for signing does not match the last signature of the voucher to be extended")
 	}
 
+	// The next owner key must be of the same type and size/curve as well
+	var nextOwnerPubKey crypto.PublicKey = nextOwner
+	if chain, ok := any(nextOwner).([]*x509.Certificate); ok {
+		if len(chain) == 0 || chain[0] == nil {
+			return nil, fmt.Errorf("next owner certificate chain for voucher extension is empty")
+		}
+		nextOwnerPubKey = chain[0].PublicKey
+	}
+	switch nextPub := nextOwnerPubKey.(type) {
+	case *ecdsa.PublicKey:
+		if ownerPub, ok := ownerPubKey.(*ecdsa.PublicKey); !ok || nextPub == nil || nextPub.Curve != ownerPub.Curve {
+			return nil, fmt.Errorf("next owner key for voucher extension did not match the type and size/curve of the manufacturer key")
+		}
+	case *rsa.PublicKey:
+		if ownerPub, ok := ownerPubKey.(*rsa.PublicKey); !ok || nextPub == nil || nextPub.Size() != ownerPub.Size() {
+			return nil, fmt.Errorf("next owner key for voucher extension did not match the type and size/curve of the manufacturer key")
+		}
+	default:
+		return nil, fmt.Errorf("unsupported next owner key type: %T", nextPub)
+	}
+
 	// Create the next owner PublicKey structure
 	asCOSE := v.Header.Val.ManufacturerKey.Encoding == protocol.CoseKeyEnc
 	if _, ok := any(nextOwner).([]*x509.Certificate); ok {
